@@ -2,7 +2,7 @@ import Girc.Drv.PureOps
 import Girc.Model.Run
 import Girc.Model.Sts
 import Girc.Spec.RefTracker
-import Girc.Spec.Conformant
+import Girc.Spec.Sim
 namespace Girc.Drv
 open Girc Girc.Model
 
@@ -99,10 +99,20 @@ def handleRun (op : String) (args : List String) : Option String :=
     | .ok (r, _) =>
       let o1 := Spec.observe r.cs.st
       let o2 := Spec.Ref.observe (Spec.Ref.run cfg events)
-      let conf := Spec.conformantHistory cfg {} events
+      let conf := Spec.conformantHistory cfg {} events && events.length = lines.length && events.all (fun e => e.command ≠ cERROR)
       if !conf && o1 = o2 then pure "nonconformant-agree"
       else if !conf then pure "nonconformant"
-      else if o1 = o2 then pure "1"
+      else if o1 = o2 then
+        -- also test the simulation relation used in the proofs on every prefix of the history
+        let rec goSim (cs : CState) (rf : Spec.Ref) (es : List Event) (i : Nat) : String :=
+          match Spec.simWhy cs.st rf with
+          | some w => s!"0 sim:{w}@{i}"
+          | none => match es with
+            | [] => "1"
+            | e :: rest => match Model.handleEvent cfg cs e [] [] with
+              | .ok (cs', _) => goSim cs' (rf.step cfg e) rest (i + 1)
+              | .error _ => s!"0 sim:fault@{i}"
+        pure (goSim {} {} events 0)
       else
         let part := if o1.nick ≠ o2.nick then "nick" else if o1.ident ≠ o2.ident || o1.host ≠ o2.host then "identhost"
           else if o1.channels.map (·.1) ≠ o2.channels.map (·.1) then "channel-set"
